@@ -566,6 +566,44 @@ theorem setElem_eq {len n : Nat} (v : Ref len n) (k : Fin n) (x : Int) (mem : Me
   · rw [if_neg h, Vector.getElem_set_ne]
     exact fun e => h (Lemma.addr_injective v (Fin.ext e)).symm
 
+/-- **all histories**: whatever sequence of member-operator statements runs (any operands, any aliasing), a cell that is outside
+    the target of every statement keeps its value -/
+theorem run_frame {len : Nat} (stmts : List (Stmt len)) (mem : Mem len) (a : Fin len) (h : ∀ s ∈ stmts, s.TargetOutside a) :
+    (Stmt.run stmts mem)[a] = mem[a] := by
+  induction stmts generalizing mem with
+  | nil => rfl
+  | cons s rest ih =>
+    have hs := h s (List.mem_cons_self ..)
+    have hstep : (s.exec mem)[a] = mem[a] := by
+      cases s with
+      | add t x => exact (memberOps_frame t x mem a hs).1
+      | sub t x => exact (memberOps_frame t x mem a hs).2.1
+      | mul t x => exact (memberOps_frame t x mem a hs).2.2
+      | smul t sc => exact mulAssignScalar_frame t sc mem a hs
+      | asg t x => exact assignConv_frame t x mem a hs
+      | ctor t x => exact assignValue_frame t _ mem a hs
+      | set t i v => exact Lemma.set_frame mem _ a v (hs i)
+    show (Stmt.run rest (s.exec mem))[a] = mem[a]
+    rw [ih (s.exec mem) fun s' hs' => h s' (List.mem_cons_of_mem _ hs'), hstep]
+
+theorem run_append {len : Nat} (p q : List (Stmt len)) (mem : Mem len) : Stmt.run (p ++ q) mem = Stmt.run q (Stmt.run p mem) := by
+  simp [Stmt.run, List.foldl_append]
+
+/-- save – mutate – restore: `b = a; a *= s; a += x; a = b` gives `a` its old value back, whatever `s` and `x` alias
+    (as long as `b` is disjoint from `a` and is not overwritten in between) -/
+theorem save_mutate_restore {len n : Nat} (a b x : Ref len n) (s : Scalar len) (mem : Mem len)
+    (hab : ∀ i j, a.addr i ≠ b.addr j) (i : Fin n) :
+    (a.load (Stmt.run [.asg b a, .smul a s, .add a x, .asg a b] mem)).get i = (a.load mem).get i := by
+  have hba : NoClobber b a := noClobber_of_disjoint b a fun i j => (hab j i).symm
+  have hab' : NoClobber a b := noClobber_of_disjoint a b hab
+  show (a.load (assignConv a b (addAssign a x (mulAssignScalar a s (assignConv b a mem))))).get i = _
+  rw [assignConv_eq a b _ hab', load_get, load_get]
+  have hb : ∀ k, a.Outside (b.addr k) := fun k j => hab j k
+  show (addAssign a x (mulAssignScalar a s (assignConv b a mem)))[b.addr i] = _
+  rw [(memberOps_frame a x _ _ (hb i)).1, mulAssignScalar_frame a s _ _ (hb i)]
+  have := assignConv_eq b a mem hba i
+  rwa [load_get, load_get] at this
+
 /-! ### matrices -/
 
 /-- `m += x` on matrices is the free `+` (Mathlib's), also for `m += m` -/
